@@ -345,6 +345,16 @@ func (f *FnEnc) encode() {
 		return
 	}
 	f.findLoops()
+	if f.c != nil {
+		// an invariant written for a loop the function no longer has: the contract does not
+		// describe this body any more (undecided, not a verdict)
+		for _, inv := range f.c.Invs {
+			if inv.Loop > len(f.loopOrd) {
+				f.fail("contract has an invariant (%s) for loop %d, the function has %d loop(s): the contract is out of date for this body", inv.Label, inv.Loop, len(f.loopOrd))
+				return
+			}
+		}
+	}
 	// count stores per cell for static propagation
 	for _, b := range fn.Blocks {
 		for _, in := range b.Instrs {
